@@ -1,0 +1,18 @@
+//go:build verif
+
+package db
+
+import (
+	"github.com/glebziz/fs_db"
+	"github.com/glebziz/fs_db/internal/di"
+)
+
+// ContainerOf returns the dependency container of an inline database (verification builds only).
+func ContainerOf(d fs_db.DB) *di.Container {
+	inl, ok := d.(*db)
+	if !ok {
+		return nil
+	}
+
+	return inl.container
+}
